@@ -88,8 +88,10 @@ def gen_keys(rng, cfg, n):
                 tab[k] = base + cfg.capacity * rng.randint(0, 30) * rng.choice([1, 2, 3])
             elif r < 0.65 and j > 0:
                 tab[k] = tab.get(keys[rng.randrange(j)], base)  # shares a fingerprint with an earlier key
-            else:
+            elif r < 0.9:
                 tab[k] = rng.randint(1, 2**32 - 1)
+            else:
+                tab[k] = rng.choice([2**64 + rng.randint(1, 10**6), 2**80 + rng.randint(1, 999), -rng.randint(1, 10**9)])  # huge / negative hash values
         cfg.hf = gen.SimpleTable("packed", tab)
         cfg.hname = "hand_packed_buckets"
     keys = [k for k in keys if cfg.raw_fp(k) != 0]
